@@ -9,10 +9,10 @@ C15  LengthProbe (TLA+) specifies the length probe on streams fed octet by octet
      decode_length / decode_with_length are run on every prefix / with every tail; Trace_Probe
      (TLC) compares.
 """
-import glob
 import hashlib
 import json
 import os
+import subprocess
 
 import pipeline as pl
 import checks_codec as cc
@@ -81,26 +81,20 @@ def rewrite_cfg(steps, all_cuts, max_vals, mut=''):
             % (steps, 'TRUE' if all_cuts else 'FALSE', max_vals, mut))
 
 
-FIXTURE_TESTS = [
-    # (asn.1 files relative to the repository, type, encodings recorded from the repository's tests)
-    (['tests/files/ietf/rfc5280.asn'], 'Certificate', 'tests/files/ietf/*.der'),
-]
-
-
-def fixture_cases(run):
-    """Binding B inputs: encodings the repository's own tests decode (certificates of tests/files)."""
-    out = []
-    for files, type_name, pattern in FIXTURE_TESTS:
-        if not all(os.path.exists(os.path.join(pl.REPO, f)) for f in files):
-            continue
-        for path in sorted(glob.glob(os.path.join(pl.REPO, pattern))):
-            with open(path, 'rb') as f:
-                data = f.read()
-            if len(data) > 4000:
-                continue
-            out.append({'cid': 'fx-' + hashlib.sha1(data).hexdigest()[:12], 'raw': list(data), 'files': files,
-                        'type': type_name, 'codec': 'ber', 'source': os.path.relpath(path, pl.REPO)})
-    return out
+def record_fixtures(run, max_n, max_len):
+    """Binding B inputs: the BER encodings tests/test_ber.py decodes, recorded by wrapping the public API
+    from outside (harness/record_fixtures.py).  Returns (cases file for TLC, meta file for the driver, count)."""
+    fx_dir = run.path('fx')
+    env = dict(os.environ)
+    env['VERIF_REPO'] = pl.REPO
+    p = subprocess.run([pl.PY, os.path.join(pl.HERE, 'record_fixtures.py'), '--out', fx_dir, '--max', str(max_n),
+                        '--maxlen', str(max_len)], env=env, stdout=subprocess.PIPE, stderr=subprocess.STDOUT,
+                       text=True, timeout=1800)
+    cases = os.path.join(fx_dir, 'fx_cases.ndjson')
+    if p.returncode != 0 or not os.path.exists(cases):
+        raise pl.Machinery('record_fixtures failed:\n%s' % p.stdout[-2000:])
+    n = sum(1 for l in open(cases) if l.strip())
+    return cases, os.path.join(fx_dir, 'fx_meta.ndjson'), n
 
 
 def small(cases, cap):
@@ -111,24 +105,33 @@ def small(cases, cap):
 def c04(tier, seed):
     run = pl.Run('C04', tier, seed)
     try:
-        if tier == 'quick':
+        # plans: (name, cases, R, all cut points, values per case, simulate, depth)
+        if tier == 'smoke':       # a small universe for sensitivity demonstrations
+            shallow = typegen(run, [(1, False, ['E'], None)], 'g')[::4]
+            deep = []
+            plans = [('bfs1', shallow, 1, False, 3, None, None)]
+            fx_max, fx_len = 60, 120
+            fx_plans = [('fxbfs1', rewrite_cfg(1, False, 1), None, None)]
+        elif tier == 'quick':
             shallow = typegen(run, [(1, False, ['E', 'A'], None)], 'g')
-            deep = small(typegen(run, [(3, True, ['I', 'E'], 'num=12')], 's'), 2500)[:150]
-            # (plan name, cases, R, all cut points, values per case, simulate, depth)
-            plans = [('bfs1', shallow + deep, 1, False, 14, None, None),
-                     ('bfs2', shallow, 2, False, 2, None, None),
-                     ('bfs3', [c for c in shallow if c['depth'] == 0], 3, False, 2, None, None),
-                     ('sim', shallow + deep, 10, True, 14, 'num=150', 11)]
-            fx_plans = [('fxsim', rewrite_cfg(8, True, 1), 'num=12', 9)]
+            deep = small(typegen(run, [(3, True, ['I', 'E'], 'num=10')], 's'), 2500)[:120]
+            plans = [('bfs1', shallow + deep, 1, False, 8, None, None),
+                     ('bfs2', shallow, 2, False, 1, None, None),
+                     ('bfs3', [c for c in shallow if c['depth'] == 0], 3, False, 1, None, None),
+                     ('sim', shallow + deep, 10, True, 8, 'num=60', 11)]
+            fx_max, fx_len = 150, 600
+            fx_plans = [('fxbfs1', rewrite_cfg(1, False, 1), None, None),
+                        ('fxsim', rewrite_cfg(8, True, 1), 'num=15', 9)]
         else:
             shallow = typegen(run, [(1, True, ['E', 'A'], None), (1, False, ['I'], None)], 'g')
-            deep = small(typegen(run, [(2, False, ['E', 'I', 'A'], None), (5, True, ['E', 'I', 'A'], 'num=400')], 's'), 4000)
+            deep = small(typegen(run, [(2, False, ['E', 'I', 'A'], None), (5, True, ['E', 'I', 'A'], 'num=300')], 's'), 4000)
             plans = [('bfs1', shallow + deep, 1, True, 14, None, None),
-                     ('bfs2', shallow, 2, False, 4, None, None),
-                     ('bfs3', [c for c in shallow if c['depth'] == 0], 3, False, 4, None, None),
-                     ('sim', shallow + deep, 12, True, 14, 'num=4000', 13)]
+                     ('bfs2', shallow, 2, False, 3, None, None),
+                     ('bfs3', [c for c in shallow if c['depth'] == 0], 3, False, 3, None, None),
+                     ('sim', shallow + deep, 12, True, 14, 'num=3000', 13)]
+            fx_max, fx_len = 100000, 2500
             fx_plans = [('fxbfs1', rewrite_cfg(1, False, 1), None, None),
-                        ('fxsim', rewrite_cfg(12, True, 1), 'num=150', 13)]
+                        ('fxsim', rewrite_cfg(12, True, 1), 'num=200', 13)]
         cases = unique_cases(shallow + deep)
         cpath = run.path('cases.ndjson')
         pl.write_cases(cases, cpath)
@@ -139,25 +142,23 @@ def c04(tier, seed):
             pl.write_cases(sub, spath)
             out, res = pl.tlc_generate(run, 'TlvRewrite', rewrite_cfg(steps, cuts, mv), 'var_%s.ndjson' % name,
                                        workers=TLC_WORKERS, simulate=sim, depth=depth, env={'CASES_FILE': spath},
-                                       timeout=3000, what='TlvRewrite %s: %d cases, R=%d (ModelOk on every variant)'
+                                       timeout=6000, what='TlvRewrite %s: %d cases, R=%d (ModelOk on every variant)'
                                        % (name, len(sub), steps))
             outs.append(out)
         nvar = merge_lines(outs, run.path('variants.ndjson'))
         shards = pl.drive(run, 'drive_rewrite.py', cpath, 'trace', ['--variants', run.path('variants.ndjson')])
         # binding B: encodings the repository's tests decode, rewritten type-agnostically by TLC
-        fx = fixture_cases(run)
+        fx_cases, fx_meta, nfx = record_fixtures(run, fx_max, fx_len)
         fshards = []
-        if fx:
-            fpath = run.path('fixtures.ndjson')
-            pl.write_cases(fx, fpath)
+        if nfx:
             fouts = []
             for name, cfg, sim, depth in fx_plans:
                 out, res = pl.tlc_generate(run, 'TlvRewrite', cfg, 'var_%s.ndjson' % name, workers=TLC_WORKERS,
-                                           simulate=sim, depth=depth, env={'CASES_FILE': fpath}, timeout=3000,
-                                           what='TlvRewrite %s on fixture encodings' % name)
+                                           simulate=sim, depth=depth, env={'CASES_FILE': fx_cases}, timeout=6000,
+                                           what='TlvRewrite %s on %d encodings decoded by tests/test_ber.py' % (name, nfx))
                 fouts.append(out)
             nvar += merge_lines(fouts, run.path('fxvariants.ndjson'))
-            fshards = pl.drive(run, 'drive_rewrite.py', fpath, 'fxtrace', ['--variants', run.path('fxvariants.ndjson')])
+            fshards = pl.drive(run, 'drive_rewrite.py', fx_meta, 'fxtrace', ['--variants', run.path('fxvariants.ndjson')])
         cfg = 'SPECIFICATION Spec\nPOSTCONDITION TraceAccepted\nCHECK_DEADLOCK FALSE\n'
         reports = pl.validate(run, 'Trace_Rewrite', cfg, shards + fshards, what='Trace_Rewrite')
         idx = pl.load_trace_index(shards + fshards)
@@ -174,7 +175,7 @@ def c04(tier, seed):
                                         'value': line['vals'][o['vi'] - 1], 'variants_decoded': o['same'] + len(o['diff']),
                                         'rewrite_shapes': sorted(o['shapes'])[:6]})
         run.notes['cases'] = len(cases)
-        run.notes['fixture_encodings'] = len(fx)
+        run.notes['fixture_encodings'] = nfx
         run.notes['variant_lines_generated'] = nvar
         run.notes['distinct_rewrite_shapes'] = len(shapes)
         run.notes['top_shapes'] = dict(sorted(shapes.items(), key=lambda kv: -kv[1])[:25])
